@@ -35,7 +35,9 @@ def generate(tier, seed, shard, nshards):
         ph = rng.choice(SPECIAL_PH) if r < 0.3 else (rng.uniform(-6 * math.pi, 6 * math.pi) if r < 0.6 else rng.uniform(-math.pi, math.pi))
         off = 0.0 if rng.random() < 0.4 else rng.choice([1, -1]) * 10 ** rng.uniform(-2, 2)
         ns = list(range(0, 41)) + sorted(rng.sample(range(41, 601), 12))
-        yield {'kind': 'wave', 'wave': wave, 'period': T, 'amplitude': A, 'phase': ph, 'offset': off, 'ns': ns}
+        # number types: a waveform's parameters (and the harmonic order) as Python ints / numpy scalars instead of float / int
+        yield {'kind': 'wave', 'wave': wave, 'period': T, 'amplitude': A, 'phase': ph, 'offset': off, 'ns': ns,
+               'number_type': (None, None, None, 'int', None, 'numpy', None, 'npint')[(k // len(WAVES)) % 8]}
 
 
 def total_variation(sh):
@@ -70,7 +72,16 @@ def judge(case, ctx, prefix='C08'):
     if raised(cls):
         ctx.violation(f'{prefix}/lookup/raised', f'periodic_function({wave!r}) raised {cls.text}', {})
         return
-    pf = call(cls, period=T, amplitude=A, phase=ph, offset=off)
+    nt = case.get('number_type')
+    from .. import netdesc
+    netdesc._NUMBER_TYPE[0] = nt
+    try:
+        Tt, At, pht, offt = (netdesc.typed(x) for x in (T, A, ph, off))
+    finally:
+        netdesc._NUMBER_TYPE[0] = None
+    if nt:
+        ctx.count('waveforms_with_int_or_numpy_parameters')
+    pf = call(cls, period=Tt, amplitude=At, phase=pht, offset=offt)
     hs = call(pfm.fourier_series, pf) if not raised(pf) else pf
     if raised(hs):
         ctx.violation(f'{prefix}/construction-raised/{hs.key}', f'{wave} waveform / fourier_series raised {hs.text}', {})
@@ -102,6 +113,8 @@ def judge(case, ctx, prefix='C08'):
     part = 0.0
     for n in case['ns']:
         X = fourier.coefficient(sh, T, n)
+        if nt in ('numpy', 'npint'):
+            n = np.int64(n)                      # orders taken from a numpy range
         an, pn = call(hs.amplitude, n), call(hs.phase, n)
         if raised(an) or raised(pn):
             bad = an if raised(an) else pn
